@@ -216,7 +216,59 @@ def rule_disarm_first(ctx):
             ctx.violation(TICK_INNER + "|timeout-unarmed|1", site(ti, e[1]), "timed-out lock attempt reports `running` without arming the flag")
 
 
+def rule_notify_identity(ctx):
+    """What the worker and the injectors call IS the user's callback: in Nucleo::new the value handed to Worker::new
+    and stored in Nucleo.notify is the `notify` parameter (or a clone).  A wrapper is acceptable only if it calls the
+    wrapped callback on every path; a wrapper that drops calls (coalescing, rate limiting, `if !pending`) turns a
+    wake-up that the protocol guarantees into one that may never reach the user."""
+    from cfg import strip_casts
+    facts = ctx.facts
+    fn = get_fn(facts, "nucleo", "Nucleo::<T>::new")
+    nl = [l for l in range(1, fn.arg_count + 1) if fn.names.get(l) == "notify"]
+    if not nl:
+        raise Inconclusive("Nucleo::new has no `notify` parameter")
+    sinks = []
+    for bi, t in fn.calls(lambda t: callee(t) == "worker::Worker::<T>::new"):
+        for a in t["args"]:
+            e = fn.expr_of_operand(a)
+            if "Fn()" in str(fn.b["locals"][(a.get("move") or a.get("copy") or {"l": 0})["l"]]["ty"]) if (a.get("move") or a.get("copy")) else False:
+                sinks.append(("Worker::new", bi, e))
+    for bi, si, s_ in fn.stmts(lambda s_: s_["k"] == "assign" and s_["rv"].get("agg") == "adt" and str(s_["rv"].get("adt", "")).endswith("Nucleo")):
+        names = s_["rv"]["fields"]
+        if "notify" in names:
+            sinks.append(("Nucleo.notify", bi, fn.expr_of_operand(s_["rv"]["ops"][names.index("notify")])))
+    ctx.floor("places where Nucleo::new hands out the notify callback", len(sinks), 2)
+
+    def resolve(e, depth=0):
+        e = strip_casts(e)
+        while e[0] in ("ref", "deref", "cast"):
+            e = strip_casts(e[2] if e[0] == "cast" else e[1])
+        if e[0] == "call" and str(e[1]).endswith("Clone>::clone") and depth < 6:
+            return resolve(e[2][0], depth + 1)
+        return e
+    for what, bi, e in sinks:
+        r = resolve(e)
+        key = "Nucleo::<T>::new|notify-identity|%s" % what
+        if r[0] == "arg" and r[1] == nl[0]:
+            ctx.ok(site(fn, bi), "%s receives the user's notify callback itself" % what)
+            continue
+        clo = [x for x in walk(r) if x[0] == "closure"]
+        if r[0] == "call" and str(r[1]).endswith("Arc::<T>::new") and clo:
+            cf = get_fn(facts, "nucleo", clo[0][1])
+            inner = [cb for cb, ct in cf.calls(lambda t: callee(t) in FN_CALLS or (t.get("fn") in FN_CALLS))
+                     if any(x[0] == "field" and x[2] == "notify" for x in walk(cf.expr_of_operand(ct["args"][0])))]
+            if inner and cf.all_paths_to_return_pass(0, via_nodes=inner):
+                ctx.ok(site(fn, bi), "%s receives a wrapper that calls the user's callback on every path" % what)
+            else:
+                ctx.violation(key, site(cf, inner[0] if inner else 0),
+                              "%s receives a wrapper (%s) that does not call the user's callback on every path: a notification the worker or an injector issues can be "
+                              "swallowed, and if the condition that re-enables it is not re-established (a tick that timed out on the lock) no later one gets through either" % (what, cf.path))
+            continue
+        raise Inconclusive("Nucleo::new: cannot resolve what %s receives as notify (%s)" % (what, show(r)[:80]))
+
+
 def rules(ctx):
+    ctx.run_rule("C13.notify-identity", rule_notify_identity)
     ctx.run_rule("C13.injector-notify", rule_injector_notify)
     ctx.run_rule("C13.run-exit", rule_run_exit)
     ctx.run_rule("C13.arm-under-lock", rule_arm_under_lock)
